@@ -1218,7 +1218,7 @@ def shrink_script(script, fails):
     return cur
 
 
-LISTED_CAUSES = ("non_identifier_column", "infinite_constant", "nan_constant", "negative_zero_constant", "list_of_at_most_one_element")
+LISTED_CAUSES = ("non_identifier_column", "infinite_constant", "nan_constant")
 
 
 def signature(fail, causes):
